@@ -211,7 +211,8 @@ def rule_f1(F):
 def rule_f2(F):
     r = RuleResult("C03.F2", "every popped frame is drained into emit_drop", floor=8)
     for b in lowerer_bodies(F):
-        pops = [(bi, t) for bi, t in mir.calls(b) if is_frame_op(t, "pop")]
+        pops = [(bi, t) for bi, t in mir.calls(b) if is_frame_op(t, "pop")
+                or (mir.callee_def(t) == "std::mem::take" and (t["f"].get("gargs") or [None])[0] == FRAME_TY)]
         if not pops:
             continue
         defs = mir.Defs(b)
@@ -497,6 +498,9 @@ def rule_f8(F):
                     cur.add(st + (False,))
                 elif is_frame_op(t, "pop") or eff == {-1}:
                     cur.add(st[:-1])
+                elif mir.callee_def(t) == "std::mem::take" and (t["f"].get("gargs") or [None])[0] == FRAME_TY and st:
+                    # the innermost frame is emptied (its contents are then dropped by the caller of take, see F2): it holds nothing any more
+                    cur.add(st[:-1] + (False,))
                 elif hir.last(name) == "new_block":
                     if any(st):
                         flagged[bi] = t["line"]
